@@ -249,9 +249,15 @@ package tq
 //@   loop 1 iter transfers[iter(len(transfers))].Name == "" && transfers[iter(len(transfers))].Path == "" && !transfers[iter(len(transfers))].Authenticated
 //@   loop 1 iter transfers[iter(len(transfers))].Actions == nil && transfers[iter(len(transfers))].Links == nil && transfers[iter(len(transfers))].Error == nil
 
+// C06: whatever JSON the server answers with - a null object or a null action
+// included - handling the response does not dereference a nil pointer (the
+// claimed no-panic obligations of this function), and a response that is
+// handed on has no null object.
 //@ func (*tqClient).Batch
-//@   props C18
-//@   requires @inv bReq != nil
+//@   props C18 C06
+//@   requires @inv bReq != nil && c != nil && c.Client != nil
+//@   requires @inv forall_int(i, bReq.Objects[i], 0 <= i && i < len(bReq.Objects) ==> bReq.Objects[i] != nil)
+//@   ensures @C06 result1 == nil && result0 != nil ==> forall_int(i, result0.Objects[i], 0 <= i && i < len(result0.Objects) ==> result0.Objects[i] != nil)
 //@   ensures result1 == nil && result0 != nil ==> result0.HashAlgorithm == "" || result0.HashAlgorithm == "sha256"
 
 //@ func github.com/git-lfs/git-lfs/v3/lfshttp.DecodeJSON
